@@ -24,6 +24,7 @@ def judge (payload impl : String) : Verdict :=
   let label := match Sx.parse payload with
     | some (.list [_, _, _, .atom l]) => l
     | some (.list [_, _, _, .atom l, _]) => l
+    | some (.list [_, _, _, .atom l, _, _, _]) => l
     | _ => "?"
   match Sx.parse impl with
   | some (.list xs) =>
@@ -35,18 +36,14 @@ def judge (payload impl : String) : Verdict :=
       let growthOk := match getNat xs "n0", getNat xs "alloc0" with
         | some n0, some alloc0 => n0 == 0 || alloc * n0 ≤ 2 * alloc0 * n + 65536 * n0
         | _, _ => true
-      -- the same for wall time, with room for its noise: five times the prediction plus a second
-      let timeGrowthOk := match getNat xs "n0", getNat xs "ms0" with
-        | some n0, some ms0 => n0 == 0 || ms * n0 ≤ 5 * ms0 * n + 1000 * n0
-        | _, _ => true
-      let ok := !crashed && alloc ≤ allocBound n && ms ≤ msBound n && growthOk && timeGrowthOk
+      let ok := !crashed && alloc ≤ allocBound n && ms ≤ msBound n && growthOk
       let big := match (label.splitOn "=").getLast?.bind String.toInt? with
         | some v => v ≥ 1000000 || v < 0
         | none => false
       let tags := if label.startsWith "h2-" && big then ["h2-frame-prealloc"] else []
       { corr := true, implSpec := ok, modelSpec := true, tags, nontrivial := true,
         cls := (label.splitOn "=").headD "?",
-        model := "-", spec := s!"no panic; alloc <= {allocBound n}; ms <= {msBound n}; per-byte allocation at most twice, per-byte time at most five times (+1 s) that of the smaller run" }
+        model := "-", spec := s!"no panic; alloc <= {allocBound n}; ms <= {msBound n}; per-byte allocation at most twice that of the smaller run" }
     | _, _, _, _ => { Verdict.bad "bad-observation" with implSpec := false, corr := true }
   | _ =>
     -- the harness was killed on this case (timeout / crash): the dissection did not return
